@@ -39,7 +39,11 @@ def evaluate(d):
     prop = meta["breaks_property"]
     tmp = tempfile.mkdtemp(prefix="sweep_", dir="/tmp")
     wt = os.path.join(tmp, "repo")
-    subprocess.check_call(["git", "-C", "/repo", "worktree", "add", "-q", "--detach", wt, "HEAD"])
+    for attempt in range(5):  # (concurrent `git worktree add` calls can collide on the repository lock)
+        if subprocess.call(["git", "-C", "/repo", "worktree", "add", "-q", "--detach", wt, "HEAD"]) == 0:
+            break
+        import time
+        time.sleep(1 + attempt)
     rep = {"head": head, "tier": tier}
     try:
         env = dict(os.environ, PYTHONPATH=wt, PYTHONDONTWRITEBYTECODE="1")
